@@ -1,3 +1,5 @@
+"""Policy text layer of C10 (extension round 2): this is the builder's version of c10.py kept as a module;
+only part_e (the poltext stage) and _replay_poltext are used, by tools/props/c10.py."""
 """C10 — text forms round-trip and the descriptor checksum detects corruption (DESIGN 5/C10).
 
 Part A (proof): Properties/C10.v — checksum model (ChecksumModel.v) with linearity, printed =
@@ -291,116 +293,114 @@ def part_d(rep, hbin, tier, seed, cov):
     return 1, (1 if ok else 0)
 
 
+def _coq_rows(out):
+    """Parse the `Eval vm_compute` blocks of a *Diag.v output into Python lists (N/nat suffixes stripped)."""
+    import ast
+    rows = []
+    for blk in re.findall(r"=\s*(\[.*?\])\s*:\s*list", out, flags=re.S):
+        txt = re.sub(r"%(N|nat)", "", blk).replace(";", ",")
+        txt = txt.replace("true", "True").replace("false", "False")
+        try:
+            rows.append(ast.literal_eval(re.sub(r"\s+", " ", txt)))
+        except Exception:
+            rows.append([])
+    return rows
+
+
 def part_e(rep, hbin, tier, seed, cov):
-    """Key text (FromStr / Display of DescriptorPublicKey): real parser + printer vs KeyTextModel, inside Coq."""
+    """Policy text layer (Display / FromTree of policy::Concrete and policy::Semantic): real code vs PolTextModel, inside Coq."""
     tdir = os.path.join(vlib.COQ, "Tables")
-    # statements file of this part (registered by the coordinator on merge; gated here the same way)
-    t2, b2, pr2, _ = vlib.check_property_file("C10KeyText")
+    p = vlib.sh([hbin, "poltext", str(seed), tier], env={"VERIF_TIER": tier}, timeout=3000)
+    if p.returncode != 0:
+        raise RuntimeError("poltext engine failed: %s" % p.stderr[-2000:])
+    open(os.path.join(tdir, "PolTextCasesGen.v"), "w").write(p.stdout)
+    m = re.search(r"POLTEXT cases=(\d+) cvals=(\d+) svals=(\d+) cval_reparse_equal=(\d+) sval_reparse_equal=(\d+) "
+                  r"kinds=(\{.*?\}) conc_outcomes=(\{.*?\}) sem_outcomes=(\{.*?\})", p.stderr)
+    cov["policy_text_layer"] = {
+        "text_cases": int(m.group(1)) if m else 0,
+        "concrete_values_built_with_enum_constructors": int(m.group(2)) if m else 0,
+        "semantic_values_built_with_enum_constructors": int(m.group(3)) if m else 0,
+        "concrete_values_whose_printed_form_reparses_equal": int(m.group(4)) if m else 0,
+        "semantic_values_whose_printed_form_reparses_equal": int(m.group(5)) if m else 0,
+        "kinds": json.loads(m.group(6)) if m else {},
+        "concrete_outcomes[ok, errN = error class (50 = expression-tree error)]": json.loads(m.group(7)) if m else {},
+        "semantic_outcomes": json.loads(m.group(8)) if m else {},
+        "values_not_reparsing(sample)": re.findall(r"POLTEXTNOREPARSE (.*)", p.stderr)[:8]}
+    cov.setdefault("samples", []).extend(re.findall(r"POLTEXTSAMPLE (.*)", p.stderr)[:4])
+    # VALUES built with the enum constructors whose printed form does not parse back to an equal value, classified by
+    # the harness from the value's structure.  (The Coq comparison below requires every value that satisfies the
+    # parser's own checks to re-parse equal, so an unclassified one also breaks poltext_cases_match_model.)
+    vals = {}
+    for ty, reason, n, wit in re.findall(r"^POLTEXTVALUE (\S+) (\S+) n=(\d+) witness=(.*)$", p.stderr, flags=re.M):
+        vals["%s %s" % (ty, reason)] = {"count": int(n), "witness_printed_form": wit}
+        key = None
+        if (ty, reason) == ("semantic", "semantic-1of1"):
+            key = "rt:policy:semantic-1of1"
+        elif (ty, reason) == ("concrete", "concrete-nary"):
+            key = "rt:policy:concrete-nary"
+        elif reason == "unexplained":
+            key = "poltext-value-rt"
+        if key:
+            rep.violation(key, "%s policy value built with the public enum constructors prints as %r, which %s::from_tree refuses "
+                               "or parses to a different value (%s values this run)" % (ty, wit, ty.capitalize(), n),
+                          {"property": PID, "part": "policy-round-trip", "key": key, "poltext_value": {"type": ty, "reason": reason},
+                           "printed_form": wit, "seed": seed, "tier": tier}, True)
+    cov["policy_text_layer"]["values_whose_printed_form_does_not_reparse[type reasons]"] = vals
+    cov["policy_text_layer"]["value_classes"] = (
+        "semantic-1of1 / concrete-nary: findings (known_findings.txt); empty-and-or, zero-odds, odds-over-u32: values outside the "
+        "text syntax by construction (no text form exists / the parser refuses 0@ on purpose / odds are parsed as u32); "
+        "structural-key: a String key containing ( ) , { } #")
+    obligations, discharged = 2, 0
+    # statements file of the policy text layer (the coordinator registers it on merge)
+    t2, b2, pr2, _ = vlib.check_property_file("C10PolText")
+    cov["policy_text_theorems"] = t2
+    cov["policy_text_print_assumptions"] = [("closed" if b["closed"] else ",".join(b["axioms"])) for b in b2]
     if pr2:
         rep.violation("property-file", "; ".join(pr2),
-                      {"property": PID, "broken_tie": "Properties/C10KeyText.v", "problems": pr2}, found_input=False)
-    cov.setdefault("theorems_extra", []).extend(t2)
-    cov["key_text_print_assumptions"] = [("closed" if b["closed"] else ",".join(b["axioms"])) for b in b2]
-    n_ob = len(t2) + 1
-    n_ok = len(t2) if not pr2 else 0
-    p = vlib.sh([hbin, "keytext", str(seed), tier], env={"VERIF_TIER": tier}, timeout=3000)
-    if p.returncode != 0:
-        raise RuntimeError("keytext engine failed: %s" % p.stderr[-2000:])
-    open(os.path.join(tdir, "KeyTextCasesGen.v"), "w").write(p.stdout)
-    m = re.search(r"KEYTEXT cases=(\d+) accepted=(\d+) reparse_ok=(\d+) kinds=(\{.*?\}) outcomes=(\{.*?\}) shapes=(\{.*?\})", p.stderr)
-    cov["key_text_layer"] = {
-        "cases": int(m.group(1)) if m else 0,
-        "accepted": int(m.group(2)) if m else 0,
-        "accepted_whose_printed_text_reparses_equal": int(m.group(3)) if m else 0,
-        "kinds": json.loads(m.group(4)) if m else {},
-        "outcomes[ok-*, errN = error class of DescriptorPublicKey::from_str as numbered in KeyTextModel.key_err_code]": json.loads(m.group(5)) if m else {},
-        "shapes_of_accepted_keys": json.loads(m.group(6)) if m else {},
-        "compared": "structure dump (origin, body, path(s), wildcard) or error class; Display text; reparse-equal flag; body validity from the bitcoin crate"}
-    cov.setdefault("samples", []).extend(re.findall(r"KEYTEXTSAMPLE (.*)", p.stderr)[:4])
-    # keys built as VALUES on the BIP32 depth limit (depth + steps + wildcard = 253..256, xpub depth 0 / 5 / 250,
-    # every wildcard, single path and multipath): Display then FromStr must give back an equal value when the
-    # total is <= 255 (C10_key_print_parse: these values are wf_dkey); judged on the real code only
-    mv = re.search(r"KEYVALUES n=(\d+) within_limit=(\d+) within_limit_roundtrip_ok=(\d+) over_limit=(\d+) over_limit_rejected=(\d+)", p.stderr)
-    cov["key_text_layer"]["values_on_the_depth_limit"] = {
-        "constructed": int(mv.group(1)) if mv else 0, "total<=255": int(mv.group(2)) if mv else 0,
-        "total<=255_printed_then_parsed_equal": int(mv.group(3)) if mv else 0,
-        "total=256": int(mv.group(4)) if mv else 0, "total=256_rejected_by_parser": int(mv.group(5)) if mv else 0}
-    vfails = re.findall(r"^KEYVALUEFAIL (.*?) :: (.*?) :: (.*)$", p.stderr, flags=re.M)
-    if vfails or not mv or int(mv.group(2)) == 0:
-        if vfails:
-            desc, result, text = vfails[0]
-            rep.violation("keytext-value-rt",
-                          "a DescriptorPublicKey built as a value within the BIP32 depth limit (%s) prints as %r, which FromStr does not give back: %s (%d such value(s))"
-                          % (desc, text[:160] + ("..." if len(text) > 160 else ""), result, len(vfails)),
-                          {"property": PID, "part": "round-trip", "key": "keytext-value-rt", "input": text, "value": desc,
-                           "result": result, "all": [{"value": a, "result": b, "printed": c} for a, b, c in vfails[:20]],
-                           "seed": seed, "tier": tier}, True)
-        else:
-            rep.violation("keytext-values", "the keytext engine reported no constructed values", {"property": PID, "broken_tie": "verif-harness keytext (KEYVALUES)"}, False)
-    if not m or int(m.group(1)) < 1500:
-        rep.violation("keytext-volume", "keytext engine produced too few cases: %s" % (p.stderr[-300:],),
-                      {"property": PID, "broken_tie": "verif-harness keytext"}, False)
-        return n_ob, 0
-    for f in ("Tables/KeyTextCasesGen.v", "Tables/KeyTextCasesDefs.v"):
+                      {"property": PID, "broken_tie": "Properties/C10PolText.v", "problems": pr2}, False)
+    else:
+        discharged += 1
+    for f in ("Tables/PolTextCasesGen.v", "Tables/PolTextCasesDefs.v"):
         c = vlib.coqc(f)
         if c.returncode != 0:
             raise RuntimeError("%s does not compile: %s" % (f, (c.stderr or c.stdout)[-1500:]))
-    c2 = vlib.coqc("Tables/KeyTextCasesCheck.v")
-    ok = c2.returncode == 0
-    if not ok:
-        c3 = vlib.coqc("Tables/KeyTextCasesDiag.v")
-        diffs = []
-        mm = re.search(r"=\s*(\[.*\])\s*:\s*list", c3.stdout, flags=re.S) if c3.returncode == 0 else None
-        if mm:
-            import ast
-            txt = re.sub(r"%(N|nat)", "", mm.group(1)).replace(";", ",")
-            try:
-                val = ast.literal_eval(re.sub(r"\s+", " ", txt))
-            except Exception:
-                val = []
-            for row in val:
-                (i, text, impl, model, ipr, mpr) = row
-                diffs.append({"index": i, "input": _bytes_str(text), "implementation_obs": list(impl), "model_obs": list(model),
-                              "implementation_printed": _bytes_str(ipr[2:]) if ipr[:1] == [1] else None,
-                              "implementation_reparse_equal": (ipr[1] == 1) if ipr[:1] == [1] else None,
-                              "model_printed": _bytes_str(mpr[2:]) if mpr[:1] == [1] else None})
-        # judge with the specification side: the round trip itself, on the real code
-        fail = None
-        for d in diffs:
-            if d["implementation_obs"][:1] == [2]:
-                fail = (d["input"], "DescriptorPublicKey::from_str panics")
+    c2 = vlib.coqc("Tables/PolTextCasesCheck.v")
+    if c2.returncode == 0:
+        return obligations, discharged + 1
+    c3 = vlib.coqc("Tables/PolTextCasesDiag.v")
+    rows = _coq_rows(c3.stdout) if c3.returncode == 0 else []
+    tdiff, cdiff, sdiff = (rows + [[], [], []])[:3]
+    diffs, cand = [], []
+    for (i, text, io, mo, iso, mso) in tdiff:
+        t = _bytes_str(text)
+        diffs.append({"index": i, "input": t, "implementation_concrete": list(io), "model_concrete": list(mo),
+                      "implementation_semantic": list(iso), "model_semantic": list(mso)})
+        cand.append(t)
+    for name, dl in (("concrete", cdiff), ("semantic", sdiff)):
+        for (i, mtext, itext, flag) in dl:
+            diffs.append({"value_index": i, "type": name, "model_printed": _bytes_str(mtext), "implementation_printed": _bytes_str(itext),
+                          "implementation_reparse_equal": flag})
+            cand.append(_bytes_str(itext))
+    # judge with the specification side: the round trip itself, on the real code
+    fail = None
+    if cand:
+        os.makedirs(vlib.WORK, exist_ok=True)
+        tmp = os.path.join(vlib.WORK, "c10-poltext-replay.txt")
+        open(tmp, "w").write("".join(t + "\n" for t in cand if "\n" not in t))
+        q = vlib.sh([hbin, "poltext", "rtfile", tmp], timeout=600)
+        for ty, verdict, line in re.findall(r"^POLRT\t(\S+)\t(FAIL[^\t]*|OK|REJECTED)\t(.*)$", q.stdout, flags=re.M):
+            if verdict.startswith("FAIL"):
+                fail = (ty, verdict, line)
                 break
-            if d["implementation_reparse_equal"] is False:
-                fail = (d["input"], "accepted, printed as %r, which does not parse back to an equal key" % d["implementation_printed"])
-                break
-        if fail is None and diffs:
-            # replay the differing texts and their printed forms through the real parser/printer once more
-            tmp = os.path.join(vlib.WORK, "c10-keytext-replay.txt")
-            os.makedirs(vlib.WORK, exist_ok=True)
-            cand = []
-            for d in diffs:
-                cand.append(d["input"])
-                if d["implementation_printed"]:
-                    cand.append(d["implementation_printed"])
-            open(tmp, "w").write("".join(t + "\n" for t in cand))
-            q = vlib.sh([hbin, "keytext", "1", tier, tmp], timeout=600)
-            for (idx, acc, pr, re_eq, pan) in re.findall(r"^KEYOBS (\d+) accepted=(\d) printed=(.*?) reparse_equal=(\S+) panic=(\d)$", q.stderr, flags=re.M):
-                if pan == "1" or (acc == "1" and re_eq == "0"):
-                    fail = (cand[int(idx)] if int(idx) < len(cand) else "", "round trip fails: printed=%s reparse_equal=%s panic=%s" % (pr, re_eq, pan))
-                    break
-                # the printed form must be a fixed point: printing the reparse gives the same text
-                if acc == "1" and pr != "-" and int(idx) < len(cand) and cand[int(idx)] in [d["implementation_printed"] for d in diffs] and pr != cand[int(idx)]:
-                    fail = (cand[int(idx)], "printed form is not a fixed point: prints again as %s" % pr)
-                    break
-        if fail:
-            rep.violation("keytext-rt", "key text round trip fails on the real code: %r %s" % (fail[0][:300], fail[1][:300]),
-                          {"property": PID, "part": "round-trip", "key": "keytext-rt", "input": fail[0],
-                           "differences": diffs, "seed": seed, "tier": tier}, True)
-        else:
-            rep.violation("keytext-tie", "key text model and DescriptorPublicKey parser/printer differ: %s" % json.dumps(diffs[:1])[:600],
-                          {"property": PID, "part": "key-text", "broken_tie": "keytext_cases_match_model (Tables/KeyTextCasesCheck.v)",
-                           "differences": diffs, "log": (c2.stderr or c2.stdout)[-500:] if not diffs else ""}, False)
-    return n_ob, n_ok + (1 if ok else 0)
+    if fail:
+        rep.violation("poltext-rt", "policy text round trip fails on the real code (%s policy): %r: %s" % (fail[0], fail[2][:300], fail[1][:300]),
+                      {"property": PID, "part": "policy-round-trip", "key": "poltext-rt", "poltext_line": fail[2], "type": fail[0],
+                       "verdict": fail[1], "differences": diffs[:12], "seed": seed, "tier": tier}, True)
+    else:
+        rep.violation("poltext-tie", "policy text model and parser/printer differ: %s" % json.dumps(diffs[:1])[:500],
+                      {"property": PID, "part": "policy-text", "broken_tie": "poltext_cases_match_model (Tables/PolTextCasesCheck.v)",
+                       "differences": diffs[:12], "log": (c2.stderr or c2.stdout)[-500:] if not diffs else ""}, False)
+    return obligations, discharged
 
 
 RT_REPLAY_KIND = {"miniscript/bare": "ms-bare", "miniscript/legacy": "ms-legacy", "miniscript/segwitv0": "ms-segwit",
@@ -500,106 +500,42 @@ def replay_file(rep, hbin, tier, path):
     return False
 
 
-# ---------------------------------------------------------------- closers (extension round 2)
-def _paren_depth(s):
-    d = m = 0
-    for ch in s:
-        if ch == "(":
-            d += 1
-            m = max(m, d)
-        elif ch == ")":
-            d -= 1
-    return m
-
-
-def part_closers(rep, hbin, tier, seed, cov):
-    """Properties/C10Closers.v (depth hypothesis derived from the accepted input) + its tie on the real code:
-    directed deep texts in expanded spellings, printed form must not be deeper and must parse to the same object."""
-    thms, blocks, problems, _ = vlib.check_property_file("C10Closers")
-    if problems:
-        rep.violation("property-file", "; ".join(problems),
-                      {"property": PID, "broken_tie": "Properties/C10Closers.v", "problems": problems}, found_input=False)
-    cov.setdefault("theorems_closers", thms)
-    cov["print_assumptions_closers"] = [("closed" if b["closed"] else ",".join(b["axioms"])) for b in blocks]
-    depths = [1, 2, 7, 60, 200, 380, 396, 397, 398, 399, 400, 401, 402] + ([150, 300, 390, 395] if tier == "thorough" else [])
-    fams = {
-        "or_i(0,X)->l:": lambda d: "or_i(0," * d + "pk(A)" + ")" * d,
-        "or_i(X,0)->u:": lambda d: "or_i(" * d + "pk(A)" + ",0)" * d,
-        "and_v(X,1)->t:": lambda d: "and_v(" + "v:and_v(" * (d - 1) + "vc:pk_k(A)" + ",1)" * d,
-        "c:pk_k->pk under and_v chain": lambda d: "and_v(vc:pk_k(A)," * d + "c:pk_k(B)" + ")" * d,
-        "andor(X,Y,0)->and_n": lambda d: "andor(pk(A)," * d + "pk(B)" + ",0)" * d,
-        "plain or_d chain": lambda d: "or_d(pk(A)," * d + "pk(B)" + ")" * d,
-        "thresh chain": lambda d: "thresh(1," * d + "pk(B)" + ")" * d,
-        "sugar l: prefix": lambda d: "l" * min(d, 400) + ":pk(A)",
-        "sugar u: prefix": lambda d: "u" * min(d, 400) + ":pk(A)",
-        "sugar tv: prefix": lambda d: "tv" * min(d, 199) + ":pk(A)",
-        "sugar and_n chain": lambda d: "and_n(pk(A)," * d + "pk(B)" + ")" * d,
-        "mixed l:tv:": lambda d: "or_i(0,and_v(v:" * ((d + 1) // 2) + "pk(A)" + ",1))" * ((d + 1) // 2),
-    }
-    lines, meta = [], []
-    for name, f in fams.items():
-        for d in depths:
-            t = f(d)
-            for kind in ("ms-segwit", "ms-tap"):
-                lines.append("%s %s" % (kind, t))
-                meta.append((name, d, kind, t))
-    tmp = os.path.join(vlib.WORK, "c10-closers.txt")
+def _replay_poltext(rep, hbin, replay):
+    try:
+        obj = json.load(open(replay))
+    except Exception:
+        return False
+    if "poltext_value" in obj:
+        pv = obj["poltext_value"]
+        q = vlib.sh([hbin, "poltext", str(obj.get("seed", 1)), obj.get("tier", "quick")], timeout=3000)
+        m = re.search(r"^POLTEXTVALUE %s %s n=(\d+) witness=(.*)$" % (re.escape(pv["type"]), re.escape(pv["reason"])), q.stderr, flags=re.M)
+        if m:
+            rep.violation(obj.get("key", "poltext-value-rt"),
+                          "%s policy value prints as %r, which does not parse back to an equal value" % (pv["type"], m.group(2)), dict(obj), True)
+        rep.coverage.update({"obligations": 1, "discharged": 1, "evaluations": 1, "distinct_nontrivial": 1,
+                             "rule": "replay of one recorded value class", "samples": [obj.get("printed_form", "")[:200]],
+                             "checker_cmd": "verif-harness poltext <seed> <tier>", "trusted_base": vlib.TRUSTED_BASE_COMMON})
+        return True
+    if "poltext_line" not in obj:
+        return False
     os.makedirs(vlib.WORK, exist_ok=True)
-    open(tmp, "w").write("\n".join(lines) + "\n")
-    q = _run_engine(hbin, ["rt", "1", tier, tmp], tier)
-    out = re.findall(r"^REPLAY kind=(\S+) (.*)$", q.stdout, flags=re.M)
-    accepted = rejected = shallower = same = 0
-    maxdepth_accepted = 0
-    samples = []
-    obligations = 1 + len(meta)
-    bad = 0 if not problems else 1
-    if len(out) != len(meta):
-        rep.violation("closers:engine", "text rt replay returned %d lines for %d texts" % (len(out), len(meta)),
-                      {"property": PID, "broken_tie": "text rt (closers stage)"}, found_input=False)
-        return obligations, 0
-    for (name, d, kind, t), (k2, res) in zip(meta, out):
-        din = _paren_depth(t)
-        robj = {"property": PID, "part": "round-trip", "key": "closers:depth", "kind_line": "%s %s" % (kind, t),
-                "family": name, "nesting": d, "input_depth": din}
-        if res.startswith("rejected:"):
-            rejected += 1
-            continue
-        m = re.search(r"dump=(.*?) printed=(.*?) redump=(.*?) reprinted=(.*)$", res)
-        if not m:
-            bad += 1
-            rep.violation("closers:reparse", "accepted text of depth %d (%s): printed form does not parse back: %s" % (din, name, res[:300]), robj, True)
-            continue
-        accepted += 1
-        dout = _paren_depth(m.group(2))
-        maxdepth_accepted = max(maxdepth_accepted, din)
-        if dout > din or dout > 402:
-            bad += 1
-            rep.violation("closers:depth", "printed form is deeper than the accepted text (%d > %d, %s)" % (dout, din, name), robj, True)
-        elif m.group(1) != m.group(3) or m.group(2) != m.group(4):
-            bad += 1
-            rep.violation("closers:fixpoint", "printed form parses to a different object (%s, depth %d)" % (name, din), robj, True)
-        else:
-            if dout < din:
-                shallower += 1
-            else:
-                same += 1
-            if len(samples) < 4 and d == 2:
-                samples.append("%s -> %s" % (t, m.group(2)))
-    if accepted < len(fams) or shallower == 0 or same == 0:
-        bad += 1
-        rep.violation("closers:vacuous", "directed deep texts: accepted=%d shallower=%d same=%d" % (accepted, shallower, same),
-                      {"property": PID, "broken_tie": "closers stage generator"}, found_input=False)
-    cov["closers_depth_stage"] = {"texts": len(meta), "accepted": accepted, "rejected": rejected,
-                                  "printed_shallower": shallower, "printed_same_depth": same,
-                                  "deepest_accepted_input": maxdepth_accepted, "families": sorted(fams)}
-    cov.setdefault("samples", []).extend(samples)
-    return obligations, obligations - bad
+    tmp = os.path.join(vlib.WORK, "c10-poltext-replay.txt")
+    open(tmp, "w").write(obj["poltext_line"] + "\n")
+    q = vlib.sh([hbin, "poltext", "rtfile", tmp], timeout=600)
+    for ty, verdict, line in re.findall(r"^POLRT\t(\S+)\t(FAIL[^\t]*|OK|REJECTED)\t(.*)$", q.stdout, flags=re.M):
+        if verdict.startswith("FAIL"):
+            rep.violation("poltext-rt", "policy text round trip fails on the real code (%s policy): %r: %s" % (ty, line[:300], verdict[:300]),
+                          dict(obj), True)
+            break
+    rep.coverage.update({"obligations": 1, "discharged": 1, "evaluations": 1, "distinct_nontrivial": 1,
+                         "rule": "replay of one recorded input", "samples": [obj["poltext_line"][:200]],
+                         "checker_cmd": "verif-harness poltext rtfile <replay>", "trusted_base": vlib.TRUSTED_BASE_COMMON})
+    return True
 
 
 def run(rep, tier, seed, replay):
     hbin = vlib.build_harness()
-    import c10_poltext
-    if replay and c10_poltext._replay_poltext(rep, hbin, replay):
+    if replay and _replay_poltext(rep, hbin, replay):
         return
     if replay:
         if replay_file(rep, hbin, tier, replay):
@@ -625,27 +561,21 @@ def run(rep, tier, seed, replay):
     o, d = part_e(rep, hbin, tier, seed, cov)
     obligations += o
     discharged += d
-    o, d = part_closers(rep, hbin, tier, seed, cov)
-    obligations += o
-    discharged += d
-    o, d = c10_poltext.part_e(rep, hbin, tier, seed, cov)   # policy text layer (Properties/C10PolText.v)
-    obligations += o
-    discharged += d
     rt_total, rt_fail = part_c(rep, hbin, tier, seed, cov)
     camp = cov.get("substitution_campaign", {})
     tab = cov.get("checksum_tables", {})
     evaluations = (tab.get("single_chars", 0) + tab.get("two_char_strings", 0) + tab.get("random_strings", 0) + tab.get("verify_cases", 0)
                    + camp.get("single_substitutions_all_positions_x_all_characters", 0) + camp.get("double_substitutions", 0)
                    + camp.get("in_group0_3or4_substitutions", 0) + camp.get("collision_sweep_checksums", 0)
-                   + cov.get("expression_tree", {}).get("cases", 0) + cov.get("miniscript_text_layer", {}).get("cases", 0)
-                   + cov.get("key_text_layer", {}).get("cases", 0) + rt_total
+                   + cov.get("expression_tree", {}).get("cases", 0) + cov.get("miniscript_text_layer", {}).get("cases", 0) + rt_total
                    + sum(cov.get("policy_text_layer", {}).get(k, 0) for k in ("text_cases", "concrete_values_built_with_enum_constructors",
                                                                               "semantic_values_built_with_enum_constructors")))
     rep.coverage.update(cov)
     rep.coverage.update({
         "obligations": obligations, "discharged": discharged,
         "checker_cmd": "make -C coq ; coqc Properties/C10.v ; verif-harness text cktab | coqc Tables/ChecksumTables{Gen,Defs,Check}.v ; verif-harness text cksub ; "
-                       "verif-harness text mstext | coqc Tables/MsTextCases{Gen,Defs,Check}.v",
+                       "verif-harness text mstext | coqc Tables/MsTextCases{Gen,Defs,Check}.v ; "
+                       "coqc Properties/C10PolText.v ; verif-harness poltext | coqc Tables/PolTextCases{Gen,Defs,Check}.v",
         "trusted_base": vlib.TRUSTED_BASE_COMMON + [
             "bech32 0.11.1 primitives::checksum::Engine is modelled (input_fe, mul_by_x_then_add, unpack), tied by the tables",
             "Uint63 primitive integers (table transport only, evaluated by vm_compute; no axioms used)",
@@ -667,18 +597,12 @@ def run(rep, tier, seed, replay):
                                   "proof (print-parse, fixed point, alias meaning; keys/hashes opaque, from_ast an arbitrary check) + tie in Coq",
                               "printers/parsers of descriptor, key, policy, wallet policy; miniscript context rules (Part C)":
                                   "correspondence/oracle only: differential round trips on the real code, not modelled in Coq"}
+    rep.coverage["levels"]["policy text layer: Display / from_tree of policy::Concrete and policy::Semantic (Part E)"] = \
+        "proof (print-parse, parse-valid, fixed point, text-level round trip; keys/hashes opaque) + tie in Coq"
     rep.assumptions = [
+        "PolTextModel.v transcribes Display and FromTree of policy::concrete::Policy / policy::semantic::Policy (tied on every run by Tables/PolTextCasesCheck.v, String keys)",
         "ChecksumModel.v transcribes checksum.rs and the bech32 engine it instantiates (tied on every run by the complete 1-/2-character tables and random strings)",
         "the BIP-380 reference algorithm in ChecksumModel.v (bip380_*) is a transcription of the BIP's Python",
         "MsTextModel.v transcribes display.rs (as_node, fragment_name, conditional_fmt) and Miniscript::from_tree with the expression helpers it calls (tied on every run by Tables/MsTextCasesCheck.v)",
         "miniscript text theorems: keys and hashes are opaque atoms whose parser inverts their printer (parse (print x) = Some x) and, for the text-level theorems, whose printed form consists of name characters; Miniscript::from_ast is an arbitrary boolean check (the type check in the tie)",
     ]
-    # key text part (Part E)
-    rep.assumptions += [
-        "KeyTextModel.v transcribes impl FromStr for DescriptorPublicKey (parse_key_origin, parse_xkey_deriv, bip32::ChildNumber::from_str, depth limit) and the Display impls (tied on every run by Tables/KeyTextCasesCheck.v)",
-        "key text theorems: the cryptographic bodies (base58check xpub/tpub, hex points) are parameters with the hypothesis bodies_ok (parser inverts printer, alphanumeric, xpub/tpub prefix and >= 64 characters, 66/130 characters with prefix 02/03/04, 64 hex characters); the tie takes body validity, canonical text and depth from the bitcoin crate",
-    ]
-    rep.coverage["levels"]["key text: FromStr / Display of DescriptorPublicKey (Part E)"] = \
-        "proof (print-parse for all well-formed keys, parse-valid, fixed point, canonical form, no panic; bodies abstract) + tie in Coq"
-    rep.coverage["checker_cmd"] += " ; coqc Properties/C10KeyText.v ; verif-harness keytext | coqc Tables/KeyTextCases{Gen,Defs,Check}.v"
-    rep.coverage["rule"] += "; key text: DescriptorPublicKey::from_str structure or error class, Display text and reparse-equal flag on structurally generated valid keys, single keys, 56 kinds of mutations and directed (depth limit, short, non-ASCII) texts, compared with the model in Coq"
